@@ -314,6 +314,12 @@ HANDMADE = [
                    "b": {"instances": None, "inputs": ["x"], "req": ["2"], "opt": ["1"],
                          "body": {"1": {"k": "ret", "e": "const", "c": 1}, "2": {"k": "ret", "e": "const", "c": 0}}}},
      "unknown": ["z"], "request": ["a"], "fieldNames": []},
+    # one line reads y only, another reads x and then y: with a [DEFAULT] section that supplies y, y turns readable the moment
+    # the answer for x creates the section (C03: nothing may be computed from a value that is about to be replaced)
+    {"catalogue": {"a": {"instances": None, "inputs": ["x", "y"], "req": ["1", "2"], "opt": [],
+                         "body": {"1": {"k": "in", "n": "y", "br": [{"k": "ret", "e": "acc", "c": 0}]},
+                                  "2": {"k": "in", "n": "x", "br": [{"k": "in", "n": "y", "br": [{"k": "ret", "e": "acc", "c": 0}]}]}}}},
+     "unknown": ["z"], "request": ["a"], "fieldNames": []},
     # the same form requested twice
     {"catalogue": {"a": {"instances": None, "inputs": ["x"], "req": ["1"], "opt": [],
                          "body": {"1": {"k": "in", "n": "x", "br": [{"k": "ret", "e": "acc", "c": 0}]}}}},
